@@ -151,7 +151,14 @@ func DrawAVCSPS(t *sim.Tape) (nalu []byte, width, height int, chromaFormat, bitD
 // DrawHEVCSPS writes a seeded, well-formed HEVC sequence parameter set NAL unit (ISO/IEC 23008-2 7.3.2.2, with
 // profile_tier_level for 1-3 temporal sub-layers incl. sub-layer profile/level info, no VUI, no extensions) and
 // returns the cropped luma picture size from 7.4.3.2.1 (conformance window in units of SubWidthC / SubHeightC).
-func DrawHEVCSPS(t *sim.Tape) (nalu []byte, width, height int, desc string) {
+// HEVCSPSInfo: what a harness-written HEVC SPS codes (the values a decoder configuration record has to repeat).
+type HEVCSPSInfo struct {
+	Tier, Profile, Level     int
+	Chroma, BitDepthLuma8    int
+	BitDepthChroma8, SubLays int
+}
+
+func DrawHEVCSPS(t *sim.Tape) (nalu []byte, width, height int, info HEVCSPSInfo, desc string) {
 	w := &bitWriter{}
 	w.u(0, 4) // sps_video_parameter_set_id
 	msl := uint(t.Draw(3))
@@ -159,13 +166,15 @@ func DrawHEVCSPS(t *sim.Tape) (nalu []byte, width, height int, desc string) {
 	w.bit(1)    // sps_temporal_id_nesting_flag
 	// profile_tier_level(1, msl)
 	w.u(0, 2)
-	w.bit(uint(t.Draw(2)))
+	tier := uint(t.Draw(2))
+	w.bit(tier)
 	prof := uint(1 + t.Draw(2))
 	w.u(prof, 5)
 	w.u(uint(0x60000000>>(prof-1)), 32) // compatibility flags
 	w.u(0x9000, 16)                     // progressive + frame-only, rest of the 48 constraint bits zero
 	w.u(0, 32)
-	w.u([]uint{93, 120, 123, 150}[t.Draw(4)], 8) // general_level_idc
+	level := []uint{93, 120, 123, 150}[t.Draw(4)]
+	w.u(level, 8) // general_level_idc
 	type sl struct{ prof, lvl uint }
 	sls := make([]sl, msl)
 	for i := range sls {
@@ -226,8 +235,10 @@ func DrawHEVCSPS(t *sim.Tape) (nalu []byte, width, height int, desc string) {
 	} else {
 		w.bit(0)
 	}
-	w.ue(uint(t.Draw(3))) // bit_depth_luma_minus8
-	w.ue(uint(t.Draw(3))) // bit_depth_chroma_minus8
+	bdl, bdc := uint(t.Draw(3)), uint(t.Draw(3))
+	w.ue(bdl) // bit_depth_luma_minus8
+	w.ue(bdc) // bit_depth_chroma_minus8
+	info = HEVCSPSInfo{Tier: int(tier), Profile: int(prof), Level: int(level), Chroma: int(chroma), BitDepthLuma8: int(bdl), BitDepthChroma8: int(bdc), SubLays: int(msl) + 1}
 	w.ue(uint(t.Draw(5))) // log2_max_pic_order_cnt_lsb_minus4
 	ord := uint(t.Draw(2))
 	w.bit(ord) // sps_sub_layer_ordering_info_present_flag
@@ -258,6 +269,6 @@ func DrawHEVCSPS(t *sim.Tape) (nalu []byte, width, height int, desc string) {
 	w.bit(0)                  // sps_extension_present_flag
 	w.trailing()
 	nalu = append([]byte{0x42, 0x01}, ebsp(w.bytes)...)
-	desc = fmt.Sprintf("sub-layers=%d chroma=%d/%d crop=%v(%d,%d,%d,%d) -> %dx%d", msl+1, chroma, sep, crop, l, rr, tp, bt, width, height)
+	desc = fmt.Sprintf("sub-layers=%d tier=%d profile=%d level=%d chroma=%d/%d depths=8+%d/8+%d crop=%v(%d,%d,%d,%d) -> %dx%d", msl+1, tier, prof, level, chroma, sep, bdl, bdc, crop, l, rr, tp, bt, width, height)
 	return
 }
